@@ -135,6 +135,11 @@ def run(R):
             n = R.rng.randint(1, 5 if R.thorough else 4)
             m = R.rng.randint(1, 3)
             I = gslib.rand_instance(R.rng, n, m, R.rng.choice([0, 0, .3]), R.rng.choice([0, 0, .3]), cmax=2)
+            if m >= 2 and R.rng.random() < 0.08:
+                # a hospital without seats: outside C01's "positive capacities" (and the theorems' WF), but the set of stable
+                # matchings is still well defined and the pinned code and the model agree on it, so it is compared as well
+                I["c"][R.rng.randrange(m)] = 0
+                R.count("brute:some_capacity_0")
             if gslib.constructible(I):
                 items.append({"inst": I, "brute": True})
         # marriage instances have the richest lattices
